@@ -60,6 +60,8 @@ func codecLayerCallee(p *Prog, call ssa.CallInstruction) (string, int) {
 
 func runC09(c *Ctx) {
 	p := c.P
+	// clause shared with C03: a reported error is the outcome the client sees (see DESIGN.md section 6a)
+	defer c.ImportRules("C03", "C03.14")
 	reach := p.RequestTimeReach()
 	rwReport := p.MustFunc("(*responseWriter).reportError")
 	rwReportEnd := p.MustFunc("(*responseWriter).reportEnd")
